@@ -133,6 +133,21 @@ func init() {
 		zz + "I32":  func(r *Run, fn *ssa.Function, a []Value) Value { return r.freshScalarS(strArg(a[0]), 32, true) },
 		zz + "I64":  func(r *Run, fn *ssa.Function, a []Value) Value { return r.freshScalarS(strArg(a[0]), 64, true) },
 		zz + "Int":  func(r *Run, fn *ssa.Function, a []Value) Value { return r.freshScalarS(strArg(a[0]), 64, true) },
+		zz + "Range64": func(r *Run, fn *ssa.Function, a []Value) Value {
+			name := strArg(a[0])
+			hi := a[1].(*Term)
+			if !hi.IsConst() {
+				panic(unsupported("Range64 needs a constant bound"))
+			}
+			if r.ts.intMode {
+				n := r.uniqueName(name)
+				r.inputs = append(r.inputs, inputVar{name: n, kind: "u64", w: 64})
+				return r.ts.IVar(n, bigZero, new(big.Int).Set(hi.bk))
+			}
+			v := r.freshScalar(name, 64, true)
+			r.addPC(r.ts.Ule(v, hi))
+			return v
+		},
 		zz + "Bool": func(r *Run, fn *ssa.Function, a []Value) Value { return r.freshScalar(strArg(a[0]), 0, true) },
 		zz + "Len": func(r *Run, fn *ssa.Function, a []Value) Value {
 			name, lo, hi := strArg(a[0]), intArg(a[1]), intArg(a[2])
@@ -166,6 +181,9 @@ func init() {
 			r.h.asserts[label]++
 			r.h.mu.Unlock()
 			if c.IsConst() && c.k != 0 {
+				r.h.mu.Lock()
+				r.h.assertsFolded[label]++
+				r.h.mu.Unlock()
 				return nil
 			}
 			if viol, m := r.assertBranch(r.ts.BNot(c)); viol {
